@@ -122,7 +122,7 @@ PLANS = {
  "C14": dict(level="proof", pred=by("_assign_comments", "CommentsTransformer", PP + "process_attribute_comment", PP + "process_composite_comment", PP + "_add_type_comment", PP + "process_dict", PP + "process_key_dict", PP + "_format", TR + "composite"),
              b=["b_comments"], canaries=["comment_attach", "comment_dup"],
              explanation="comments leave comments_dict by pop exactly when attached (at most one node); a node receives the pending comments up to its line; hoisting and printing move them unchanged and once; Lark's meta.line assumed"),
- "C15": dict(level="proof", pred=by("load_includes", "mappyfile.parser.Parser.load", "mappyfile.parser.Parser.parse_file", "mappyfile.parser.Parser.parse", "mappyfile.utils.open", "mappyfile.utils.load", "mappyfile.utils.loads"),
+ "C15": dict(level="proof", pred=by("load_includes", "_get_include_filename", "mappyfile.parser.Parser.load", "mappyfile.parser.Parser.parse_file", "mappyfile.parser.Parser.parse", "mappyfile.utils.open", "mappyfile.utils.load", "mappyfile.utils.loads"),
              b=["b_includes", "b_include_filename"], canaries=["include_depth", "include_root"],
              explanation="include scan and in-place splice proved against a ghost file system (depth limit 5, root-relative resolution, IOError for a missing file); file-name extraction (str.split on a symbolic string is out of reach) and the end-to-end behaviour are bounded"),
  "C17": dict(level="proof", pred=by("mappyfile.ordereddict."), b=["b_odict"], canaries=["pop_no_fold", "shallow_deepcopy"],
